@@ -189,7 +189,7 @@ global added to the code – a memo, a marker, a digest in place of the data –
 even if no explored input behaves differently. -/
 theorem state_shape_matches_source :
     Shapes.globalState = [] ∧
-    Shapes.blockValue = [("num", "u16"), ("more", "bool"), ("size_exponent", "u8")] :=
+    Shapes.blockValue = [("more", "bool"), ("num", "u16"), ("size_exponent", "u8")] :=
   ⟨ShapeTie.no_global_state, ShapeTie.blockValue⟩
 
 end CoapLite.C13
